@@ -83,6 +83,9 @@ def run(chk, facts):
     chk.rule("R-C04-8", "the comparator: for-all / exists accumulators of the assignability functions are monotone (shared with R-C20-5); direction of unify_type (R-C05-4)")
     from .c20 import accumulators
     accumulators(chk, facts, "R-C04-8")
+    chk.rule("R-C04-9", "no element is dropped before it is compared: every zip/take/skip in the checker is length-guarded or reviewed (shared census)")
+    from .quant import truncation_census
+    truncation_census(chk, facts, "R-C04-9")
     chk.assume("soundness of unification (substitution, `Any` accepts everything by design, generics) is not decided (ND); "
                "value-dependent errors (index out of range, division by zero) are outside the property")
     chk.notes.append("C04: traversal census, constraint census, dispatch, operator->protocol-method chain, strict lookups on MIR, stubs vs CPython table.")
